@@ -229,7 +229,7 @@ type synth struct {
 type synthOpts struct {
 	Structs    int // number of top-level-ish structs in the main file
 	MaxFields  int
-	TwoFiles   bool
+	Files      int  // number of schema files (Go packages) in the request
 	Systematic bool // first structs enumerate type x offset grid
 }
 
@@ -267,12 +267,36 @@ func pkgPath(name string, k int) string { return fmt.Sprintf("%s/p%d", name, k) 
 func Synthesize(rng *common.RNG, name, importBase string, opts synthOpts) *mSchema {
 	s := &synth{rng: rng, ids: map[uint64]bool{}, opts: opts}
 	sc := &mSchema{Name: name}
-	nfiles := 1
-	if opts.TwoFiles {
-		nfiles = 2
+	nfiles := opts.Files
+	if nfiles < 1 {
+		nfiles = 1
+	}
+	// Go package names.  In multi-file requests the imported files get names
+	// that collide with the imports capnpc-go reserves for itself (so that the
+	// generator must rename them: server -> server2 ...); with three files
+	// both imported packages share one name (collision between two schema
+	// packages).  Package directories stay distinct (p0, p1, p2).
+	pkgs := make([]string, nfiles)
+	for k := range pkgs {
+		pkgs[k] = fmt.Sprintf("%sp%d", name, k)
+	}
+	if nfiles == 2 {
+		pkgs[0] = collidingPkgNames[rng.Intn(len(collidingPkgNames))]
+	}
+	if nfiles >= 3 {
+		shared := "common"
+		if rng.Chance(1, 2) {
+			shared = collidingPkgNames[rng.Intn(len(collidingPkgNames))]
+		}
+		for k := 0; k < nfiles-1; k++ {
+			pkgs[k] = shared
+		}
+	}
+	if nfiles > 1 && rng.Chance(1, 3) {
+		pkgs[nfiles-1] = collidingPkgNames[rng.Intn(len(collidingPkgNames))]
 	}
 	for k := 0; k < nfiles; k++ {
-		f := &mFile{ID: s.id(), Name: fmt.Sprintf("%s_%d.capnp", name, k), Pkg: fmt.Sprintf("%sp%d", name, k),
+		f := &mFile{ID: s.id(), Name: fmt.Sprintf("%s_%d.capnp", name, k), Pkg: pkgs[k],
 			Import: fmt.Sprintf("%s/p%d", importBase, k)}
 		f.Filename = fmt.Sprintf("p%d/%s", k, f.Name)
 		if k > 0 {
@@ -280,14 +304,20 @@ func Synthesize(rng *common.RNG, name, importBase string, opts synthOpts) *mSche
 		}
 		sc.Files = append(sc.Files, f)
 		n := opts.Structs
-		if nfiles == 2 && k == 0 {
+		if k < nfiles-1 {
 			n = 3 + rng.Intn(3)
+		} else if nfiles == 3 {
+			n -= 8
 		}
 		s.fileIdx = k
 		s.fillFile(f, n, k == nfiles-1)
 	}
 	return sc
 }
+
+// collidingPkgNames: Go package names a schema may legally declare that
+// collide with imports the generator reserves (all but fmt) or commonly uses.
+var collidingPkgNames = []string{"server", "schemas", "text", "context", "math", "strconv", "capnp", "fmt"}
 
 func (s *synth) newNode(f *mFile, scope *mNode, kind, name string) *mNode {
 	n := &mNode{ID: s.id(), Kind: kind, Name: name, Scope: scope, File: f}
@@ -329,6 +359,11 @@ func (s *synth) fillFile(f *mFile, nStructs int, main bool) {
 		if scope != nil && rng.Chance(1, 3) {
 			s.enums = append(s.enums, s.genEnum(f, n, "Ne"))
 		}
+	}
+	if s.fileIdx > 0 {
+		// every file but the first: a struct whose fields have types of the
+		// files it imports
+		pool = append(pool, s.newNode(f, nil, "struct", "Xref"))
 	}
 	// interfaces (declared before struct bodies so fields can hold them)
 	nIf := 3 + rng.Intn(3)
@@ -602,6 +637,8 @@ func (s *synth) genStruct(n *mNode, idx int) {
 	used := map[string]bool{}
 	nf := rng.Intn(s.opts.MaxFields + 1)
 	switch {
+	case n.Name == "Xref":
+		s.crossStruct(n, a, used)
 	case s.opts.Systematic && idx < len(dataKinds):
 		s.gridStruct(n, a, dataKinds[idx], used)
 	case s.opts.Systematic && idx == len(dataKinds):
@@ -680,6 +717,91 @@ func (s *synth) gridStruct(n *mNode, a *alloc, kind string, used map[string]bool
 		}
 	}
 	s.genFields(n, n, a, 4+s.rng.Intn(6), 0, used)
+}
+
+// crossStruct: for every imported file, fields of struct / list-of-struct /
+// enum / list-of-enum / interface / list-of-interface type defined in that
+// file, as plain fields (with and without defaults), inside a group and as
+// union members.
+func (s *synth) crossStruct(n *mNode, a *alloc, used map[string]bool) {
+	pick := func(all []*mNode, f *mFile) *mNode {
+		var c []*mNode
+		for _, x := range all {
+			if x.File == f {
+				c = append(c, x)
+			}
+		}
+		if len(c) == 0 {
+			return nil
+		}
+		return c[s.rng.Intn(len(c))]
+	}
+	add := func(to *mNode, names map[string]bool, al *alloc, t *mType, disc uint16, def bool) {
+		f := &mField{Name: s.fieldName(names), Disc: disc, T: t}
+		if t.bits() > 0 {
+			f.Off = al.data(t.bits())
+			if def {
+				f.DefBits = s.primDefault(t)
+				f.Explicit = true
+			}
+		} else {
+			f.Off = al.ptr()
+			if def {
+				f.WantPDef = true
+				f.Explicit = true
+			}
+		}
+		to.Fields = append(to.Fields, f)
+	}
+	var members []*mType
+	for _, d := range n.File.Imports {
+		st, en, ifc := pick(s.structs, d), pick(s.enums, d), pick(s.ifaces, d)
+		if st != nil {
+			ts := &mType{K: "struct", Ref: st}
+			tl := &mType{K: "list", Elem: &mType{K: "struct", Ref: st}}
+			add(n, used, a, ts, noDisc, false)
+			add(n, used, a, ts, noDisc, true)
+			add(n, used, a, tl, noDisc, false)
+			add(n, used, a, tl, noDisc, true)
+			members = append(members, ts, tl)
+			// a group holding a foreign struct
+			name := s.fieldName(used)
+			g := &mNode{ID: s.id(), Kind: "struct", Name: name, Scope: n, File: n.File, IsGroup: true}
+			g.Display = n.Display + "." + name
+			g.Prefix = len(n.Display) + 1
+			n.File.All = append(n.File.All, g)
+			n.Groups = append(n.Groups, g)
+			gused := map[string]bool{}
+			add(g, gused, a, &mType{K: "struct", Ref: pick(s.structs, d)}, noDisc, false)
+			add(g, gused, a, &mType{K: "uint16"}, noDisc, true)
+			n.Fields = append(n.Fields, &mField{Name: name, Disc: noDisc, Group: g})
+		}
+		if en != nil {
+			te := &mType{K: "enum", Ref: en}
+			add(n, used, a, te, noDisc, false)
+			add(n, used, a, te, noDisc, true)
+			add(n, used, a, &mType{K: "list", Elem: te}, noDisc, false)
+			members = append(members, te)
+		}
+		if ifc != nil {
+			ti := &mType{K: "interface", Ref: ifc}
+			add(n, used, a, ti, noDisc, false)
+			add(n, used, a, &mType{K: "list", Elem: ti}, noDisc, false)
+			members = append(members, ti)
+		}
+	}
+	if len(members) >= 2 {
+		n.DiscOffset = a.data(16)
+		base := a.clone()
+		var clones []*alloc
+		for i, t := range members {
+			c := base.clone()
+			clones = append(clones, c)
+			add(n, used, c, t, uint16(i), false)
+		}
+		a.merge(clones)
+		n.DiscCount = uint16(len(members))
+	}
 }
 
 // shadowStruct: data fields whose accessors shadow every promoted method of
